@@ -65,7 +65,14 @@ def genHistory (pipe : String) (n : Nat) : G (List String) := do
       match sc.opts with
       | some (tid, s, o) =>
         let sv ← genRecordVals s
-        let ov ← genRecordVals o
+        let ov0 ← genRecordVals o
+        -- announced intervals: random ones and the boundary values (0 = "no sampling" after a rate was known, 1, all ones)
+        let ov ← ov0.mapM fun (v : SValue) => do
+          match (← below 6) with
+          | 0 => pure (⟨List.replicate v.bytes.length 0, v.long⟩ : SValue)
+          | 1 => pure (⟨encBE v.bytes.length 1, v.long⟩ : SValue)
+          | 2 => pure (⟨List.replicate v.bytes.length 255, v.long⟩ : SValue)
+          | _ => pure v
         pure [.optsData tid s o [(sv, ov)] 0]
       | none => pure []
     let mkData : G (List SSet × Nat) := do
